@@ -143,6 +143,10 @@ def check(ctx):
     # the counts multiplied are the jump matrix of the same object
     muls = [n for n in ast.walk(fj.node) if isinstance(n, ast.BinOp) and isinstance(n.op, ast.Mult)]
     has_matrix = any('self.matrix()' in norm_text(n) for n in muls)
+    if not has_matrix:
+        # through temporaries / np.dot: the symbolic text of the product names the jump matrix of the same object
+        prods = muls + [n for n in ast.walk(fj.node) if isinstance(n, ast.Call) and norm_text(n.func).split('.')[-1] in ('dot', 'matmul', 'vdot', 'inner', 'einsum', 'multiply')]
+        has_matrix = any('self.matrix()' in (it.sx(n) or '') and ('get_all_distances' in (it.sx(n) or '') or 'H' in (it.sx(n) or '')) for n in prods)
     ctx.ob('R2', fj, 'pdist ** 2 * self.matrix()', True if has_matrix else None, 'squared distances weighted by the jump counts')
 
     # ---- R3 occupancy
